@@ -70,6 +70,9 @@ inline void set_phase(int ph) { if (g_phase_slot) *g_phase_slot = ph; bump_progr
 // when nothing has made progress for `stall_s` seconds, or 98 after `hard_s` seconds in one run (call run_started()).
 void arm_guard(int stall_s, int hard_s);
 void run_started();
+void die_with_parent();   // children of the harness must not outlive it
+extern bool g_slow_abandoned;
+extern long long g_pass_cost_cap, g_lr_total_cap;   // cost caps of the hook trampoline (abandon, never judge)
 
 struct Ctx {
   std::string focus;
@@ -108,7 +111,8 @@ void exec_fs_plan(const Plan &plan, Ctx &ctx, Outcome &out);
 Plan gen_mt_plan(const std::string &prop, Rng &rng, long long sub, const std::string &tier);
 void exec_mt_plan(const Plan &plan, Ctx &ctx, Outcome &out);
 
-Plan materialise_fs_plan(const Plan &plan);   // faults applied: the delivered files become the (raw) project, no fault ops left
+Plan materialise_fs_plan(const Plan &plan);
+Project random_macro_project(Rng &rng, bool random_set);   // a macro family or a random macro set with uses, as raw text   // faults applied: the delivered files become the (raw) project, no fault ops left
 uint64_t allocated_bytes();   // sanitizer's live heap bytes (0 when unavailable)
 
 }  // namespace sim
